@@ -644,6 +644,66 @@ def validate_fromArray (ashape : MatS) (rdims cdims : Option (List Int)) (tshape
     else rejectIf (decide (0 < ashape.1) && decide (0 < ashape.2) &&
       (decide (sideSize tshape rc.1 < ashape.1) || decide (sideSize tshape rc.2 < ashape.2)))
 
+/-! ### input classes added after the mutation study -/
+
+/-- `sptensor.from_aggregator(subs, vals, shape)` with the extents as written: `tt_subscheck`,
+the value count, `tt_sizecheck(shape)` (every extent a positive integer), then the width and
+range tests of `validate_fromAggregator` -/
+def validate_fromAggregatorI (a : SubsArgsI) : Except Reject Unit :=
+  if !(a.subs.all fun row => row.all (fun x => decide (0 ≤ x))) then .error .reject
+  else if a.nvals != a.subs.length then .error .reject
+  else if a.shape.any (fun e => decide (e ≤ 0)) then .error .reject
+  else validate_fromAggregator a.toNat
+
+/-- `sptensor(subs, vals, shape)`: the constructor never looks at the sign of an extent; with
+entries present the range test `max(subs) < shape` does it implicitly -/
+def validate_sptensorI (a : SubsArgsI) : Except Reject Unit := validate_sptensor a.toNat
+
+/-- `parse_one_d`: an ndarray is squeezed and must then have at most one dimension (a 0-d
+result is made 1-d); anything else goes through `np.array` unchanged.  The shape afterwards. -/
+def parseOneD (vshape : List Nat) (isList : Bool) : Except Reject (List Nat) :=
+  if isList then .ok vshape
+  else if (vshape.filter (fun e => e != 1)).length ≤ 1 then .ok [numel vshape] else .error .reject
+
+/-- `tensor.ttsv(vector, skip_dim, version)`: `parse_one_d` first; the size comparisons that
+follow (`vector.shape != (sz,)`, and `ttv`'s `vector[i].shape != (shape[n],)` for version 1) fail
+for every mode when the parsed multiplicand is not 1-d, which is what a length that no mode has
+(`TtsvArgs.withMultiplicand`) expresses -/
+def validate_ttsvM (a : TtsvArgs) (vshape : List Nat) (isList : Bool) : Except Reject Unit :=
+  match parseOneD vshape isList with
+  | .error e => .error e
+  | .ok _ => validate_ttsv (a.withMultiplicand vshape isList)
+
+/-- `ttensor(core, factors)`: neither is the empty constructor; exactly one raises -/
+def validate_ttensorGiven (core factors : Bool) : Except Reject Unit :=
+  if !core && !factors then .ok ()
+  else rejectIf (!core || !factors)
+
+/-- `ktensor(factors, weights)`: `all(isinstance(fm, np.ndarray) and fm.dtype == float)` precedes
+the column counts; the weights' dtype is tested in the same assert as their length -/
+def validate_ktensorTyped (fs : List MatS) (nw : Option Nat) (factorsFloat weightsFloat : Bool) : Except Reject Unit :=
+  if !factorsFloat then .error .reject
+  else if nw.isSome && !weightsFloat then .error .reject
+  else validate_ktensor fs nw
+
+/-- `sptensor.subdims(region)`: `len(region) != self.ndims` -/
+def validate_subdims (N len : Nat) : Except Reject Unit := rejectIf (len != N)
+
+/-- the size-match loop of `sptensor._set_subtensor` for a sparse right-hand side: `m` counts the
+modes of the right-hand side met so far; an open slice reads `value.shape[m]`, an index list is
+compared with it (`IndexError` when there is no such mode) -/
+def spAssignGo (rhs : List Nat) : List KeyEntry → Nat → Except Reject Unit
+  | [], _ => .ok ()
+  | .int :: ks, m => spAssignGo rhs ks m
+  | .slice stop :: ks, m =>
+    if !stop && decide (rhs.length ≤ m) then .error .reject else spAssignGo rhs ks (m + 1)
+  | .list len :: ks, m =>
+    if decide (rhs.length ≤ m) then .error .reject
+    else if len != rhs.getD m 0 then .error .reject
+    else spAssignGo rhs ks (m + 1)
+
+def validate_spAssign (key : List KeyEntry) (rhs : List Nat) : Except Reject Unit := spAssignGo rhs key 0
+
 /-! ### explicit copies of three guards as they were at the pinned commit (for the record) -/
 
 namespace Pinned
